@@ -88,3 +88,11 @@ func VerifC02SetDSResponder(r *Resolver, f func(req *dns.Msg) *dns.Msg) {
 		}
 	}
 }
+
+// VerifC02Answer runs the real Resolver.answer on one upstream response that
+// carries an answer section (accessor only).
+func VerifC02Answer(r *Resolver, req, resp *dns.Msg, parentDS []dns.RR, zone string) (*dns.Msg, error) {
+	var meta middleware.ResponseMeta
+	ctx := middleware.WithResponseMeta(context.Background(), &meta)
+	return r.answer(ctx, req, resp, parentDS, zone)
+}
